@@ -192,6 +192,141 @@ func shapeC08(pk map[string]*pkgInfo) []fact {
 		out = append(out, fact{"layer4_prefetch_buf_only_grows_itself", "bool", b2s(okAssign),
 			"Connection.prefetch assigns cx.buf only a reslice of cx.buf or append(cx.buf, ...): the temporary pooled chunk never becomes the buffer"})
 	}
+	out = append(out, shapeC08Udp(l4)...)
+	return out
+}
+
+// UDP datagram buffers (model/UdpPool.v)
+func shapeC08Udp(l4 *pkgInfo) []fact {
+	if l4 == nil {
+		return nil
+	}
+	b2s := func(b bool) string {
+		if b {
+			return "true"
+		}
+		return "false"
+	}
+	norm := func(n ast.Node) string { return strings.Join(strings.Fields(l4.src(n)), "") }
+	var out []fact
+
+	// size of the arrays udpBufPool makes
+	size := "0"
+	for _, f := range l4.files {
+		for _, d := range f.Decls {
+			gd, ok := d.(*ast.GenDecl)
+			if !ok || gd.Tok != token.VAR {
+				continue
+			}
+			for _, sp := range gd.Specs {
+				vs := sp.(*ast.ValueSpec)
+				if len(vs.Names) == 1 && vs.Names[0].Name == "udpBufPool" {
+					ast.Inspect(vs, func(n ast.Node) bool {
+						if ce, ok := n.(*ast.CallExpr); ok && l4.src(ce.Fun) == "make" && len(ce.Args) == 2 && norm(ce.Args[0]) == "[]byte" {
+							if bl, ok := ce.Args[1].(*ast.BasicLit); ok {
+								size = bl.Value
+							}
+						}
+						return true
+					})
+				}
+			}
+		}
+	}
+	out = append(out, fact{"layer4_udp_buf_size", "Z", size, "length of the arrays made by udpBufPool.New"})
+
+	// packetConn.Read: the pending-partial-datagram branch is guarded by pc.lastPacket != nil, and when the
+	// reader is drained it Puts pc.lastPacket.pooledBuf once and sets pc.lastPacket = nil
+	clears := false
+	readOnce := false
+	if fd := l4.findFunc("packetConn", "Read"); fd != nil && len(fd.Body.List) > 0 {
+		if is, ok := fd.Body.List[0].(*ast.IfStmt); ok && norm(is.Cond) == "pc.lastPacket!=nil" {
+			ast.Inspect(is.Body, func(n ast.Node) bool {
+				inner, ok := n.(*ast.IfStmt)
+				if !ok || norm(inner.Cond) != "pc.lastBuf.Len()==0" {
+					return true
+				}
+				puts, nils := 0, false
+				for _, st := range inner.Body.List {
+					switch norm(st) {
+					case "udpBufPool.Put(pc.lastPacket.pooledBuf)":
+						puts++
+					case "pc.lastPacket=nil":
+						nils = true
+					}
+				}
+				clears = puts == 1 && nils
+				return false
+			})
+		}
+		// the fresh-datagram branch: Put exactly when buf.Len() == 0, otherwise remember the packet
+		ast.Inspect(fd.Body, func(n ast.Node) bool {
+			cc, ok := n.(*ast.CommClause)
+			if !ok || cc.Comm == nil || !strings.Contains(norm(cc.Comm), "<-pc.readCh") {
+				return true
+			}
+			for _, st := range cc.Body {
+				if is, ok := st.(*ast.IfStmt); ok && norm(is.Cond) == "buf.Len()==0" && is.Else != nil {
+					thenPut := len(is.Body.List) == 1 && norm(is.Body.List[0]) == "udpBufPool.Put(pkt.pooledBuf)"
+					elseKeep := strings.Contains(norm(is.Else), "pc.lastPacket=pkt") && !strings.Contains(norm(is.Else), "udpBufPool.Put")
+					readOnce = thenPut && elseKeep
+				}
+			}
+			return false
+		})
+	}
+	// packetConn.Close: Puts lastPacket only under `if pc.lastPacket != nil` and clears it; every drained packet is Put once
+	closeOnce := false
+	if fd := l4.findFunc("packetConn", "Close"); fd != nil {
+		guard, drain, puts := false, false, 0
+		ast.Inspect(fd.Body, func(n ast.Node) bool {
+			switch v := n.(type) {
+			case *ast.CallExpr:
+				if l4.src(v.Fun) == "udpBufPool.Put" {
+					puts++
+				}
+			case *ast.IfStmt:
+				if norm(v.Cond) == "pc.lastPacket!=nil" && len(v.Body.List) == 2 &&
+					norm(v.Body.List[0]) == "udpBufPool.Put(pc.lastPacket.pooledBuf)" && norm(v.Body.List[1]) == "pc.lastPacket=nil" {
+					guard = true
+				}
+			case *ast.CommClause:
+				if v.Comm != nil && strings.Contains(norm(v.Comm), "pkt:=<-pc.readCh") && len(v.Body) == 1 && norm(v.Body[0]) == "udpBufPool.Put(pkt.pooledBuf)" {
+					drain = true
+				}
+			}
+			return true
+		})
+		closeOnce = guard && drain && puts == 2
+	}
+	out = append(out, fact{"layer4_udp_read_clears_lastpacket", "bool", b2s(clears && readOnce && closeOnce),
+		"packetConn.Read tests pc.lastPacket for a pending remainder, Puts it once and sets it to nil when drained; a fresh datagram is Put iff fully consumed; Close Puts lastPacket under the same test and each drained packet once"})
+
+	// servePacket: the packet whose address is enqueued is declared by the receive in the select case
+	// (`case pkt := <-packets:`), i.e. a new variable for every datagram, and nothing else is sent on readCh
+	fresh := false
+	if fd := l4.findFunc("Server", "servePacket"); fd != nil {
+		declared, sends, okSends := false, 0, 0
+		ast.Inspect(fd.Body, func(n ast.Node) bool {
+			switch v := n.(type) {
+			case *ast.CommClause:
+				if as, ok := v.Comm.(*ast.AssignStmt); ok && as.Tok == token.DEFINE && norm(as) == "pkt:=<-packets" {
+					declared = true
+				}
+			case *ast.SendStmt:
+				if strings.HasSuffix(norm(v.Chan), ".readCh") {
+					sends++
+					if norm(v.Value) == "&pkt" {
+						okSends++
+					}
+				}
+			}
+			return true
+		})
+		fresh = declared && sends >= 1 && sends == okSends
+	}
+	out = append(out, fact{"layer4_udp_loop_fresh_packet_var", "bool", b2s(fresh),
+		"servePacket declares pkt in the select case (`case pkt := <-packets:`: one variable per datagram) and readCh only ever receives &pkt"})
 	return out
 }
 
